@@ -8,6 +8,8 @@ for _b, _m in _MOD.items():
     _codes[_b * 100 + 91] = _m + ".params.changed-by-non-authority"
     _codes[_b * 100 + 92] = _m + ".params.invalid-set-stored"
     _codes[_b * 100 + 99] = _m + ".abort-under-accepted-params.unexplained"
+    _codes[_b * 100 + 98] = _m + (".end-block-abort-under-accepted-params" if _m == "service" else ".begin-block-abort-under-accepted-params")
+    _explain[_b * 100 + 98] = "the module's begin / end blocker aborted (chain halt) under an accepted parameter set but not under the defaults (the model does not predict this abort)"
     _explain[_b * 100 + 91] = "a MsgUpdateParams not signed by the authority changed the stored parameters"
     _explain[_b * 100 + 92] = "a parameter set that Params.Validate() does not accept was stored"
     _explain[_b * 100 + 99] = "an operation aborted under an accepted parameter set but not under the defaults (the model does not predict this abort)"
